@@ -131,10 +131,16 @@ class Impl:
         if op == "vop":
             v = V[int(w[1])]
             kind = w[4]
+            ann = [t[1:] for t in w if t.startswith("@")]        # how the operand is handed over (not part of the model's protocol)
+            w = [t for t in w if not t.startswith("@")]
             if kind == "s":
                 o = _h(w[5])
+                if ann:                                            # the same number as a numpy scalar
+                    o = getattr(np, ann[0])(o)
             elif kind == "a":
                 o = np.array([_h(x) for x in w[5:]], dtype=float)
+                if ann and ann[0] == "col":                        # the library's default Array shape (n, 1)
+                    o = o.reshape(-1, 1)
             else:
                 o = V[int(w[5])]
             import operator
@@ -145,7 +151,9 @@ class Impl:
             if isinstance(r, self.Vars):
                 return f"vars {self._reg_vars(r)}"
             if isinstance(r, np.ndarray):
-                return "arr " + fl(r.reshape(-1))
+                return "arr " + fl(r.reshape(-1)) if r.size == v.array.size else f"arr-of-shape {r.shape}"
+            if r is None:
+                return "none"
             raise RuntimeError(f"unexpected result {type(r)}")
         if op == "valias":
             return f"vars {self._reg_vars(V[int(w[1])].derive_alias(w[2]))}"
@@ -307,12 +315,18 @@ class Gen:
             side = str(r.choice(["l", "r"]))
             kind = str(r.choice(["s", "a", "v"]))
             if kind == "s":
-                return [f"vop {vid} {op} {side} s {f2h(self.val())}"]
+                # the same number as a Python float, or as a numpy scalar (integral values for the integer types)
+                ann = str(r.choice(["", "", "@float64", "@float32", "@int64", "@int32"]))
+                x = self.val()
+                if ann in ("@int64", "@int32", "@float32"):
+                    x = float(int(r.integers(-4, 6))) or 2.0
+                return [f"vop {vid} {op} {side} s {f2h(x)}" + (" " + ann if ann else "")]
             if kind == "a":
                 ln = n
                 if mal and r.random() < 0.3:
                     ln = int(r.choice([1, n + 1]))
-                return [f"vop {vid} {op} {side} a " + fl(self.vals(ln))]
+                col = " @col" if (ln == n and n > 1 and r.random() < 0.3) else ""     # the library's default Array shape (n, 1)
+                return [f"vop {vid} {op} {side} a " + fl(self.vals(ln)) + col]
             cands = [i for i, w in enumerate(I.vars) if self.same_layout(w.a, v.a)]
             if mal and r.random() < 0.3:
                 cands = list(range(len(I.vars)))
@@ -453,6 +467,25 @@ def oracle_op(impl, w, before, answer, report_fail):
             exp[pos:pos + ln] = [_h(x) for x in w[3:]]
             if not same(exp, v.array):
                 report_fail(f"assignment V{i}[{w[2]}] produced {v.array}, expected only slice [{pos},{pos + ln}) to change: {exp}")
+    if op == "tset" and answer.startswith("ok"):
+        tv = impl.tvs[int(w[1])]; val = impl.vars[int(w[3])]
+        k = int(w[2])
+        arr = np.asarray(tv.array)
+        if np.asarray(val.array).size != arr.shape[1]:
+            report_fail(f"`{' '.join(w)}`: a row of {np.asarray(val.array).size} value(s) was accepted for a time series of width {arr.shape[1]} "
+                        f"(assignment of a wrong length must be refused)")
+        elif not (-arr.shape[0] <= k < arr.shape[0]) or not same(arr[k], np.asarray(val.array).reshape(-1)):
+            report_fail(f"`{' '.join(w)}` returned normally but row {k} of the series does not hold the assigned values "
+                        f"(the series has {arr.shape[0]} rows)")
+    if op in ("vcomb", "acomb") and answer.startswith("ok"):
+        obj = impl.vars[int(answer.split()[2])].a if op == "vcomb" else impl.addrs[int(answer.split()[2])]
+        names = list(obj.object_list)
+        if len(set(names)) != len(names):
+            report_fail(f"`{' '.join(w)}`: the combined layout lists a name twice ({names}): both entries get the first slice, "
+                        f"part of the flat array cannot be reached by name")
+    if op == "vop" and (answer == "ok none" or answer.startswith("ok arr-of-shape")):
+        report_fail(f"`{' '.join(w)}`: arithmetic of a collection with a scalar / array returned {answer[3:]} instead of the element-wise result")
+    w = [t for t in w if not t.startswith("@")]
     if op == "vop" and answer.startswith("ok vars"):
         i = int(w[1])
         rid = int(answer.split()[2])
@@ -518,7 +551,7 @@ class Runner:
         w = op.split()
         before = snapshot(self.impl)
         ans = self.impl.step(w)
-        self.lines.append("c16 " + op); self.expect.append(ans); self.meta.append((si, op))
+        self.lines.append("c16 " + " ".join(t for t in w if not t.startswith("@"))); self.expect.append(ans); self.meta.append((si, op))
         rec = lambda m: self.fails.append((si, op, m))
         try:
             oracle_op(self.impl, w, before, ans, rec)
@@ -561,6 +594,17 @@ def run_all(seed, nseq, maxops, mal_frac, corpus):
 
 
 CORPUS = [
+    ("corpus:numpy-scalars-and-column-arrays", ["anew", "aadd 0 x 2", "aadd 0 y 1", "vnew 0 " + fl([1, 2, 4]),
+                                                "vop 0 add l s " + f2h(2.0) + " @int64", "vop 0 sub l s " + f2h(2.0) + " @int64",
+                                                "vop 0 div l s " + f2h(2.0) + " @float32", "vop 0 mul l s " + f2h(2.0) + " @int64",
+                                                "vop 0 add r s " + f2h(2.0) + " @int64", "vop 0 div r s " + f2h(8.0) + " @float32",
+                                                "vop 0 add r a " + fl([1, 2, 3]) + " @col", "vop 0 sub r a " + fl([1, 2, 3]) + " @col",
+                                                "vop 0 div r a " + fl([1, 2, 4]) + " @col", "vop 0 mul r a " + fl([1, 2, 4]) + " @col",
+                                                "vop 0 mul l a " + fl([1, 2, 4]), "vop 0 add l a " + fl([1, 2, 4]) + " @col"]),
+    ("corpus:combine-shared-name", ["anew", "aadd 0 x 2", "aadd 0 x0 1", "vnew 0 " + fl([1, 2, 3]), "valias 0 0", "vcomb 0 1", "acomb 0 0",
+                                    "aalias 0 0", "acomb 0 1"]),
+    ("corpus:tset-width-and-range", ["anew", "aadd 0 x 2", "aadd 0 y 1", "vnew 0 " + fl([1, 2, 3]), "tnew 0 4", "anew", "aadd 1 k 1",
+                                     "vnew 1 " + fl([7]), "tset 0 1 1", "tset 0 -1 0", "tset 0 4 0", "tset 0 -4 0", "tset 0 -5 0", "trow 0 3"]),
     ("corpus:get-update-get", ["anew", "aadd 0 u 1", "aadd 0 y 1", "aadd 0 w 2", "aget 0 y", "aget 0 w", "aupd 0 u 2", "aget 0 y", "aget 0 w",
                                "aupd 0 y 3", "aget 0 w", "aget 0 u", "ainq 0 3", "vnew 0 " + fl([1, 2, 3, 4, 5, 6, 7]), "vget 0 w", "vget 0 y",
                                "vset 0 w " + fl([9, 8]), "vget 0 y"]),
